@@ -20,6 +20,7 @@ def run_ops(ctx, exe, ops, timeout=1800, env=None):
     """Run op lines through a harness that may die (sanitizer abort, stack overflow): restart behind the op that killed it.
     Returns (lines, deaths): the line of a fatal op is 'DIED', deaths = [(index, stderr tail)]."""
     out, deaths, start = [], [], 0
+    ops = [o.split('\t')[0] for o in ops]           # "impl op<TAB>model op": the harness gets the first form
     e = dict(os.environ)
     e.update(env or {})
     e.setdefault('TMPDIR', ctx.scratch)
@@ -47,6 +48,7 @@ def run_model(ctx, ops, timeout=1800):
     """The extracted model on the op lines.  The extracted code recurses as deep as a value is long (it is not tail
     recursive), so the driver gets a large stack."""
     drv = os.path.join(OCAML, 'driver')
+    ops = [o.split('\t')[-1] for o in ops]          # "impl op<TAB>model op": the model gets the second form
     cmd = ['sh', '-c', 'ulimit -s unlimited 2>/dev/null || ulimit -s 4000000 2>/dev/null; exec "$0" conf', drv]
     rc, o, e = ctx.run(cmd, inp=('\n'.join(ops) + '\n').encode(), timeout=timeout)
     lines = o.decode('latin1').splitlines()
